@@ -79,6 +79,17 @@ where
     | nil => exact absurd rfl h
     | cons _ _ => rfl
 
+/-- the cleaned user map never binds its default namespace to a prefix as well -/
+theorem serializerNsMap_nodflt (env : NsEnv) (m : List (Pfx × Str)) (h : userMapOK env m = true) :
+    ∀ s u, dget (serializerNsMap m) (some s) = some u → dget (serializerNsMap m) none ≠ some u := by
+  simp only [userMapOK] at h
+  unfold serializerNsMap at h ⊢
+  split
+  · intro s u hs; simp [dget] at hs
+  · rename_i hne
+    simp only [hne] at h
+    exact cleanPrefixes_nodflt m (by simpa using h)
+
 /-- the cleaned user map satisfies the invariant -/
 theorem userMapOK_MapOK (env : NsEnv) (m : List (Pfx × Str)) (h : userMapOK env m = true) :
     MapOK env (userDefault m) (serializerNsMap m) := by
@@ -88,16 +99,10 @@ theorem userMapOK_MapOK (env : NsEnv) (m : List (Pfx × Str)) (h : userMapOK env
     split
     · simp [NoDupKeys]
     · exact cleanPrefixes_nodup m
-  refine ⟨hnd, List.all_eq_true.mp h, ?_, ?_⟩
-  · intro u hu
-    right
-    unfold userDefault
-    exact hu.symm
-  · unfold serializerNsMap at h ⊢
-    split
-    · intro s u hs; simp [dget] at hs
-    · rename_i hne
-      simp only [hne] at h
-      exact cleanPrefixes_nodflt m (by simpa using h)
+  refine ⟨hnd, List.all_eq_true.mp h, ?_⟩
+  intro u hu
+  right
+  unfold userDefault
+  exact hu.symm
 
 end Proofs.UserMap
